@@ -488,6 +488,10 @@ func (t *Collection) VisitItemsRandom(
 
 	for j := lenBlock + 1; j > 0; j-- {
 		for i, si := range blockStore {
+			if si == nil {
+				continue // This (shorter, last) block is already exhausted.
+			}
+			blockStore[i] = nil
 			// The behaviour we want is to visit the first item in each of blockStore
 			// then on the second item update blockStore to point to that second item
 			// repeat for each item in the block
